@@ -101,6 +101,30 @@ impl Family for C08Family {
         if r.bool() {
             add_prf_requests(&mut r, &mut c);
         }
+        // one run in six: another authenticator keeps the shared store's lock busy with slow ceremonies for a
+        // relying party of its own (no counter is shared: the race on one counter is C19's subject)
+        // (not on the one-slot store, where the other party's registrations would evict the record)
+        if r.chance(1, 6) && c.backend != Backend::Slot {
+            c.wrap = *r.pick(&[Wrap::ArcMutex, Wrap::ArcRwLock]);
+            let mut other = gen_actor(&mut r);
+            other.hmac = HmacCfg::None;
+            for _ in 0..r.range(2, 4) {
+                let mut s = gen_mc(&mut r, "busy.example.net");
+                s.exclude = None;
+                s.rk = false;
+                s.uv = false;
+                let mut op = plain_op(OpKind::MakeCredential(s));
+                op.yields = vec![3, 3, 3, 3, 3, 3];
+                other.ops.push(op);
+            }
+            c.actors.push(other);
+            for op in c.actors[0].ops.iter_mut() {
+                if op.yields.is_empty() {
+                    op.yields = gen_yields(&mut r, 8, 2);
+                }
+            }
+            c.schedule = gen_schedule(&mut r, 128);
+        }
         Scenario { family: "C08".into(), batch: if faulty { "faults" } else { "strict" }.into(), seed: master, index, body: Body::Ceremony(c) }
     }
 
@@ -108,7 +132,7 @@ impl Family for C08Family {
         let c = ceremony_of(scn);
         let rec = run_and_measure(c, stats);
         let mut j = Judge::new("C08", scn, &rec);
-        for p in ["silent_assertion_up_false", "assertion_at_counter_max", "assertion_at_counter_max_minus_1", "assertion_at_2_pow_31_boundary", "counterless_assertion", "registration_with_counter", "counter_edit_applied", "success_under_faults", "assertion_with_extension_request", "counter_assertion_on_shipped_store"] {
+        for p in ["silent_assertion_up_false", "assertion_at_counter_max", "assertion_at_counter_max_minus_1", "assertion_at_2_pow_31_boundary", "counterless_assertion", "registration_with_counter", "counter_edit_applied", "success_under_faults", "assertion_with_extension_request", "counter_assertion_on_shipped_store", "counter_assertion_on_contended_store"] {
             stats.declare_probe(p);
         }
         if let Some(p) = &rec.panic {
@@ -257,6 +281,9 @@ impl Family for C08Family {
                             nontrivial = true;
                             if c.backend != Backend::Ref {
                                 stats.probe("counter_assertion_on_shipped_store");
+                            }
+                            if c.actors.len() > 1 {
+                                stats.probe("counter_assertion_on_contended_store");
                             }
                             if reported != b + 1 || after != Some(b + 1) {
                                 j.fail("counter-not-plus-one", format!("op a{}#{}: credential {} had counter {b}; the assertion reports {reported} and the store now holds {after:?} (expected {} for both)", o.actor, o.idx, hex(&sel.id), b + 1));
